@@ -41,7 +41,11 @@ impl Actor for Sup {
 
 pub fn run(a: &Args) {
     let which = a.str("which").to_string();
-    let period = Duration::from_millis(a.u64("period_ms"));
+    // period_us (if given) overrides period_ms: periods below the millisecond granularity of the timer wheel
+    let period = match a.opt_u128("period_us") {
+        Some(us) => Duration::from_micros(us as u64),
+        None => Duration::from_millis(a.u64("period_ms")),
+    };
     let abort_at = a.opt_u128("abort_ms").map(|x| Duration::from_millis(x as u64));
     let stop_target_at = a.opt_u128("stop_target_ms").map(|x| Duration::from_millis(x as u64));
     let stall = a.opt_u128("stall_at_ms").map(|x| Duration::from_millis(x as u64));
